@@ -137,13 +137,17 @@ def _candidates(plan):
             c = P(plan)
             c["files"][fname]["log_times"] = False
             yield f"{fname} no log_times", c
+        if f.get("given"):
+            c = P(plan)
+            c["files"][fname].pop("given")
+            yield f"{fname} given with extension", c
     if plan.get("stale_buffer"):
         c = P(plan)
         c.pop("stale_buffer")
         yield "no stale buffer", c
     # knobs
     k = plan.get("knobs", {})
-    for key, simple in (("line_preempt", False), ("pool", "serial"), ("mode", "threads"), ("state_digest", False), ("clock_jump", 0.0), ("pool_points", False), ("pool_workers", 1)):
+    for key, simple in (("line_preempt", False), ("pool", "serial"), ("mode", "threads"), ("state_digest", False), ("clock_jump", 0.0), ("pool_points", False), ("pool_workers", 1), ("workdir", "w")):
         if k.get(key) != simple and key in k:
             c = P(plan)
             c["knobs"][key] = simple
